@@ -58,8 +58,8 @@ func ruleC13(c *Ctx) {
 		good := false
 		if ok && isMake {
 			recv := "extract[0](unop[<-,ok](" + ptb.T(ch).String() + "))"
-			apps := ptb.T(returnsOf(parse)[0].Results[0]).findAll(func(x *Term) bool { return x.isCall("builtin:append") })
-			good = len(apps) == 1 && apps[0].Args[1].contains(func(x *Term) bool { return x.Op == "partial" && x.Args[0].String() == recv }) && unwrap(gs[0].Call.Args[0]) == ssa.Value(parse.Params[0])
+			apps := topAppendSites(ptb.T(returnsOf(parse)[0].Results[0]))
+			good = len(apps) == 1 && apps[0].Elem.String() == recv && unwrap(gs[0].Call.Args[0]) == ssa.Value(parse.Params[0])
 			_ = rt
 		}
 		c.check(good, "CHANLIFE", "Parse:collect until close, in order", gs[0].Pos(), "Parse starts the parser on its reader and appends every received record, in arrival order, until the channel is closed", "Parse does not collect exactly the records received from the parser goroutine in order (unrecognised shape)")
@@ -170,25 +170,30 @@ func ruleC13(c *Ctx) {
 			whyS = "sequence is " + short(sq.String())
 			continue
 		}
+		sites := topAppendSites(sq.Args[0])
+		if len(sites) != 1 {
+			seqOK = false
+			whyS = fmt.Sprintf("%d places add sequence lines, want 1", len(sites))
+		}
+		for _, st := range sites {
+			if st.Elem.String() != text {
+				seqOK = false
+				whyS = "a line is transformed before being collected: " + short(st.Elem.String())
+				continue
+			}
+			pcs := pathCond(tb, pc.Blocks[0], st.At.Block())
+			lenz := "binop[==](call[builtin:len](" + text + "), const[0])"
+			semi := `binop[==](const[";"], slice(` + text + `, const[0], const[1]))`
+			gt := `binop[!=](const[">"], slice(` + text + `, const[0], const[1]))`
+			if pcs.implies(lenz, true) && pcs.implies(semi, true) && pcs.implies(gt, false) {
+				appOK = true
+			} else {
+				whyS = "lines are collected under " + short(pcs.String())
+			}
+		}
 		for _, l := range phiLeaves(sq.Args[0]) {
 			ls := l.String()
-			if l.isCall("builtin:append") {
-				el := l.Args[1]
-				if !(el.Op == "slice" && el.Args[0].Op == "partial" && el.Args[0].Args[0].String() == text) {
-					seqOK = false
-					whyS = "a line is transformed before being collected: " + short(el.String())
-				} else {
-					pcs := pathCond(tb, pc.Blocks[0], l.V.(ssa.Instruction).Block()).String()
-					lenz := "binop[==](call[builtin:len](" + text + "), const[0])"
-					semi := `binop[==](const[";"], slice(` + text + `, const[0], const[1]))`
-					gt := `binop[!=](const[">"], slice(` + text + `, const[0], const[1]))`
-					if strings.Contains(pcs, "!("+lenz+")") && strings.Contains(pcs, "!("+semi+")") && strings.Contains(pcs, gt) && !strings.Contains(pcs, "!("+gt+")") {
-						appOK = true
-					} else {
-						whyS = "lines are collected under " + short(pcs)
-					}
-				}
-			} else if !(strings.HasPrefix(ls, "const[nil:") || strings.HasPrefix(ls, "slice(zero[")) {
+			if !(l.Op == "collect" || l.isCall("builtin:append") || strings.HasPrefix(ls, "const[nil:") || strings.HasPrefix(ls, "slice(zero[")) {
 				seqOK = false
 				whyS = "sequence lines may come from " + short(ls)
 			}
